@@ -22,6 +22,21 @@ class C03(E2Prop):
         n = self.quick_random if tier == 'quick' else self.thorough_random
         for i in range(n):
             cases.append(gen_e2.random_history(rng, 'r%d' % i, long=(i % 3 == 0), core=(i % 2 == 0)))
+        # a pong still parked (momentarily full buffer on a blocked transport) when the peer's Close arrives, then the transport recovers
+        k = 0
+        for role in 'sc':
+            for code, reason in ((1000, b''), (1005, b''), (3000, b'bye')):
+                data = bytes(range(16))
+                fsz = gen_e2.frame_size(role, 16)
+                fr = gen_e2.peer_frame(role, 8, gen_e2.close_payload(code, reason))
+                ping = gen_e2.peer_frame(role, 9, b'pp')
+                reply = (2 + len(reason)) if ws.close_allowed(code) else 20
+                for together in (True, False):
+                    rds = ['d:' + ws.hx(ping + fr)] if together else ['d:' + ws.hx(ping), 'd:' + ws.hx(fr)]
+                    for mx in (fsz, fsz + 3, fsz + 30):
+                        for tail_op in ('f', 'r'):
+                            cases.append(ws.scase_line('pp%d' % k, role, ['wb:' + ws.hx(data), 'r', 'r'] + [tail_op] * 5, rds, ['e:wb', 'e:wb', 'e:wb'], [],
+                                                       max_=max(mx, gen_e2.frame_size(role, reply)))); k += 1
         # re-id uniquely
         out = []
         for k, c in enumerate(cases):
